@@ -149,7 +149,7 @@ def pooltimeout(T: int, H: int, same: bool) -> None:
             except httpcore.PoolTimeout:
                 out["b"] = "PoolTimeout"
                 out["b_at"] = vrt.RT.clock
-                out["b_queue"] = len(su.pool._requests)
+                out["b_queue"] = scen.n_requests(su.pool)
 
         vrt.RT.spawn("a", a())
         vrt.RT.spawn("b", b())
@@ -170,7 +170,7 @@ def pooltimeout(T: int, H: int, same: bool) -> None:
         else:
             P.cover("tie")
             P.check(out.get("b") in (200, "PoolTimeout"), "tie-either", "pooltimeout:tie")
-        P.check(len(su.pool._requests) == 0, "queue-empty-at-end", "pooltimeout:queue-not-empty")
+        P.check(scen.n_requests(su.pool) == 0, "queue-empty-at-end", "pooltimeout:queue-not-empty")
     finally:
         rt.set_async_lib("asyncio")
 
@@ -184,7 +184,7 @@ def _pooltimeout_sync(T: typing.Any) -> None:
     P.cover("timed-out")
     P.check(isinstance(o2.exc, httpcore.PoolTimeout), "pool-timeout-raised", lambda: f"pooltimeout-sync:{o2.kind()}")
     P.check(vrt.RT.clock == 100 + T, "raised-at-the-deadline", "pooltimeout-sync:wrong-instant")
-    P.check(len(su.pool._requests) == 1, "request-forgotten", "pooltimeout-sync:request-still-queued")
+    P.check(scen.n_requests(su.pool) == 1, "request-forgotten", "pooltimeout-sync:request-still-queued")
     su.api.close_response(o1.value)
     # zero pool timeout still succeeds when no waiting is needed
     o3 = su.api.request(su.pool, "GET", su.url("c"), extensions={"timeout": {"pool": 0}})
